@@ -617,4 +617,95 @@ theorem walk_not_wrapper : ∀ (c : List ErrT), c ≠ [] → c.getLast? ≠ some
     | argsNotMatch a b => exact ⟨_, rfl, by simp⟩
     | returnsNotMatch a b => exact ⟨_, rfl, by simp⟩
 
+/-! ## E. Sequences: every later configuration call on an already configured mocker -/
+
+/-- **a rejected call at any point of a configuration sequence** (`Return/When/Returns/AndReturn/In/Matches/Apply`, on the
+    handle or through a repeated lookup; functions and methods): the image, the registry and what the entry jumps to are
+    as `RejectedNoop` says — in particular a first `Returns(..)` whose value list is bad is rejected BEFORE `doApply`
+    (mocker.go:334/597), and a call that only adds matchers never touches the image at all. -/
+theorem seqStep_rejected (tg : Target) (isM : Bool) (repl : Nat) (ms ms' : MS) (st : Step) (e : Rej)
+    (h : seqStep tg isM repl ms st = (ms', .error e)) :
+    RejectedNoop ms.g ms'.g tg.id repl ∧ ms'.imp = ms.imp := by
+  cases st with
+  | again => simp [seqStep, pure, Except.pure] at h
+  | apply cb =>
+    simp only [seqStep] at h
+    cases h1 : applyByFunc ms.g tg cb .none repl with
+    | mk g1 r =>
+      cases r with
+      | error e1 =>
+        simp only [h1, Prod.mk.injEq, Except.error.injEq] at h
+        obtain ⟨rfl, rfl⟩ := h
+        exact ⟨(applyByFunc_rejected _ _ _ _ _ _ _ h1).1, rfl⟩
+      | ok u => simp [h1, pure, Except.pure] at h
+  | ret _ | when_ _ _ | returns _ | andReturn _ | in_ _ | matchPairs _ =>
+    simp only [seqStep] at h
+    cases hw : ms.when with
+    | some w =>
+      simp only [hw] at h
+      have hg : ms'.g = ms.g ∧ ms'.imp = ms.imp := by
+        have := congrArg Prod.fst h; simp at this; subst this; exact ⟨rfl, rfl⟩
+      rw [hg.1]; exact ⟨RejectedNoop.refl _ _ _, hg.2⟩
+    | none =>
+      simp only [hw] at h
+      split at h
+      · -- CreateWhen failed
+        simp only [Prod.mk.injEq, Except.error.injEq] at h
+        obtain ⟨rfl, _⟩ := h
+        exact ⟨RejectedNoop.refl _ _ _, rfl⟩
+      · split at h
+        · -- filling the When (Returns) failed: m.when is set, nothing applied
+          simp only [Prod.mk.injEq, Except.error.injEq] at h
+          obtain ⟨rfl, _⟩ := h
+          exact ⟨RejectedNoop.refl _ _ _, rfl⟩
+        · split at h
+          · rename_i g1 e1 h1
+            simp only [Prod.mk.injEq, Except.error.injEq] at h
+            obtain ⟨rfl, rfl⟩ := h
+            exact ⟨(applyByFunc_rejected _ _ _ _ _ _ _ h1).1, rfl⟩
+          · simp [pure, Except.pure] at h
+
+/-- consequently a target whose entry does not (yet) jump to this mocker's When-function behaves exactly as before -/
+theorem seqStep_rejected_behaviour (tg : Target) (isM : Bool) (repl : Nat) (ms ms' : MS) (st : Step) (e : Rej) (pre : Beh)
+    (h : seqStep tg isM repl ms st = (ms', .error e)) (hi : ms.imp ≠ .whenFn) :
+    behOf pre ms' = behOf pre ms := by
+  have hh := (seqStep_rejected _ _ _ _ _ _ _ h).2
+  unfold behOf
+  rw [hh]
+  cases hk : ms.imp with
+  | none => rfl
+  | cb => rfl
+  | whenFn => exact absurd hk hi
+
+/-- a first `Returns(ok, bad)` on a not yet mocked method: rejected, nothing written, the entry still pristine -/
+example :
+    let i : Ty := ⟨.int, 8, 25, false, 0⟩
+    let i32 : Ty := ⟨.int, 4, 23, false, 0⟩
+    let r := seqStep { id := 0, sig := ⟨[i], [i], false, i⟩ } true 901 ⟨G.init, none, .none⟩ (.returns [[.val i], [.val i32]])
+    r.2 = .error ⟨.retvalType, [.str]⟩ ∧ r.1.g.writes = 0 ∧ r.1.g.text 0 = none := by
+  refine ⟨rfl, rfl, rfl⟩
+
+/-- when.go:103 — **a follow-up `When` with the wrong number of condition arguments is rejected** (non-variadic
+    target; too few and too many), on the handle and through the cached mocker alike, and the `*When` is unchanged -/
+theorem follow_up_when_count_rejected (s : Sig) (isM : Bool) (w : WS) (args : Option (List V)) (hit : Bool)
+    (hv : s.variadic = false) (h : (args.getD []).length ≠ (inTypes isM s).length) :
+    whenStep s isM w (.when_ args hit) = (w, .error ⟨.whenCount, [.str]⟩) := by
+  simp [whenStep, wWhen, newDefaultMatch, hv, toExpr, h, rStr, rej, bind, Except.bind]
+
+/-- when.go:123 — the same for `In(...)`: a group with the wrong number of conditions is rejected -/
+theorem follow_up_in_count_rejected (s : Sig) (isM : Bool) (w : WS) (g : List V) (h : Bool) (rest : List (List V × Bool))
+    (hlen : g.length ≠ (inTypes isM s).length) :
+    whenStep s isM w (.in_ ((g, h) :: rest)) = (w, .error ⟨.inCount, [.str]⟩) := by
+  simp [whenStep, wIn, toExpr, hlen, rStr, rej]
+
+/-- when.go:168 — and for `Matches(...)`: a pair whose condition list has the wrong length is rejected -/
+theorem follow_up_matches_count_rejected (s : Sig) (isM : Bool) (w : WS) (a r : List V) (hit : Bool)
+    (rest : List (List V × Bool × List V)) (hv : s.variadic = false) (hlen : a.length ≠ (inTypes isM s).length) :
+    whenStep s isM w (.matchPairs ((a, hit, r) :: rest)) = (w, .error ⟨.whenCount, [.str]⟩) := by
+  simp [whenStep, wMatches, newDefaultMatch, hv, toExpr, hlen, rStr, rej]
+
+example : whenStep ⟨[⟨.int, 8, 25, false, 0⟩, ⟨.str, 16, 31, false, 0⟩], [], false, default⟩ false ⟨true, true, true, true⟩
+    (.when_ (some [.val ⟨.int, 8, 25, false, 0⟩]) false) = (⟨true, true, true, true⟩, .error ⟨.whenCount, [.str]⟩) :=
+  follow_up_when_count_rejected _ _ _ _ _ rfl (by decide)
+
 end C13
